@@ -10,7 +10,7 @@ MANIFEST_ENTRY = {
   "text": "Theorems in coq/Properties/C16.v about executable models of both data stores' list construction and lookup (SimpleGarnishData: every item placed in an open-addressing table by address modulo length at end_list, lookup probes from symbol modulo length; BasicGarnishData: associations written beside the items, stably sorted at end_list, binary-searched) and of the runtime's index_list / access_with_symbol: for a list built from items i1..in with start_list/add_to_list/end_list on either store (Basic: from any state satisfying the C15 heap invariant) the length is n, index k yields ik, the items iterate in insertion order, and for distinct symbol keys looking a symbol up returns the value of the pair keyed by it if present and 'absent' otherwise, never an error, for every mix of keyed and unkeyed items (Simple: the probe visits every slot, the placement keeps every item; Basic: the stable sort puts the associations first in key order and the binary search finds exactly the keyed entry); outside 0..n-1 Simple answers 'no item', index_list answers 'no item'/unit on every store, and Basic's direct accessor answers 'no item' below 0 and Err past the end (finding C16-K1, stated as a theorem). The models are tied to data/src/runtime.rs, data/src/basic/garnish/garnish_impl.rs, data/src/basic/search.rs, runtime/src/runtime/list.rs and traits/src/helpers/concatenation.rs on every run: all lists up to a bound over {number, text, symbol, pair keyed by symbol, pair keyed by non-symbol, nested list}, random larger lists with adversarial symbol values, both data implementations, read back through get_list_len / get_list_item / get_list_item_iter / get_list_item_with_symbol and through the Access and Apply operations and concatenations, on the real code and on the extracted model; an independent association-list oracle in Python checks the implementation directly.",
   "design_ref": "DESIGN.md section 8 C16"
  },
- "level_note": "Concatenations: proved (Proofs/C16/Concat.v; C16_concat_index, C16_concat_index_negative, C16_concat_access_with_integer, C16_concat_lookup, C16_concat_lookup_finds_every_key, C16_concat_fuel_suffices) on the executable model of iterate_concatenation_mut_with_method (a worklist on the register stack), index_concatenation_for, access_with_integer and access_with_symbol, for every data implementation satisfying the register-stack laws RegLaws (push and pop form a stack and leave the value getters alone; the instance is proved for the SimpleGarnishData model, C16_simple_concat_*): for any concatenation tree whose leaves are lists or single values and fuel >= the number of tree nodes, index k returns item k of the left-to-right flattening, no item (not an error) past the end or for a negative index; a symbol lookup returns the value of the first association keyed by the symbol in the traversal order the code uses (children right to left, list items first to last), so every key is found when keys are distinct; OutOfFuel is never returned; every borrowed register is popped again. Partial: the RegLaws instance for the BasicGarnishData model is not proved (its registers are cells in the data block), so on Basic the concatenation traversal rests on the correspondence; the Access/Apply dispatch and slices of concatenations are modelled and tied by correspondence only. Known finding C16-K1 (BasicGarnishData::get_list_item called directly with an index >= length returns Err, pinned by an existing test) is excluded and re-confirmed on every run; through Access/Apply such an index yields unit on both stores (fixed in index_list). Assumes distinct symbol keys (as the property does), Integer indices, slice::sort_by stable. Trusted: Coq kernel, extraction, harness/src/bin/list.rs, ocaml/list_driver.ml, this file.",
+ "level_note": "Concatenations on BOTH store models: proved (Proofs/C16/Concat.v, ConcatInv.v, ConcatBasic.v) on the executable model of iterate_concatenation_mut_with_method (a worklist on the register stack), index_concatenation_for, access_with_integer and access_with_symbol. The generic theorems hold for every data implementation satisfying the register-stack laws RegLawsInv (a state invariant re-established by push/pop; push/pop form a stack of slots; every getter result that was Ok stays the same; RegLaws, where push/pop leave all getters untouched, is a special case). Instances: the SimpleGarnishData model (C16_simple_concat_*, final state = initial state) and the BasicGarnishData model (C16_basic_concat_index, _index_negative, _lookup, _lookup_finds_every_key, _fuel_suffices) under the C15 heap invariant plus a well-formed register chain (RegsOk). For any concatenation tree whose leaves are lists or single values and fuel >= the number of tree nodes: index k returns item k of the left-to-right flattening, no item (not an error) past the end or for a negative index; a symbol lookup returns the value of the first association keyed by the symbol in the traversal order the code uses (children right to left, list items first to last), so every key is found when keys are distinct; OutOfFuel is never returned; every borrowed register is popped again. On Basic, where registers are cells appended to the data block and a push may reallocate the heap, the final state satisfies the invariant again, cur_register is the same cell, the register values are unchanged, the data table is the old one followed by dead Register cells only, every other table and head is unchanged (non-vacuity: a store built by the model's own operations, with a heap reallocation during the traversal). Partial: the Access/Apply dispatch, slices of concatenations and Float indices are modelled and tied by correspondence only. Known finding C16-K1 (BasicGarnishData::get_list_item called directly with an index >= length returns Err, pinned by an existing test) is excluded and re-confirmed on every run; through Access/Apply such an index yields unit on both stores (fixed in index_list). Assumes distinct symbol keys (as the property does), Integer indices, slice::sort_by stable. Trusted: Coq kernel, extraction, harness/src/bin/list.rs, ocaml/list_driver.ml, this file.",
  "technique": "Coq proof (loop invariants for probe / placement / binary search, sortedness of the stable sort) over an executable model + differential correspondence with the Rust implementation"
 }
 
